@@ -120,7 +120,8 @@ def run_property(pid, tier="quick", fresh=False):
         ctx.db = facts.load(fresh=fresh)
         mod = importlib.import_module("uv.rules." + pid.lower())
         broken = []
-        for fn in mod.RULES:
+        rules = mod.RULES_for(tier) if hasattr(mod, "RULES_for") else mod.RULES
+        for fn in rules:
             try:
                 fn(ctx)
             except AnalysisBroken as e:
